@@ -406,6 +406,9 @@ fn encode_subframe(
             None
         };
 
+        // The fixed-LPC candidate was selected on an estimated (or saturated) bit
+        // count; keep it only if it actually beats the verbatim encoding.
+        let fixed = fixed.filter(|x| x.count_bits() < baseline_bits);
         let baseline_bits = fixed.as_ref().map_or(baseline_bits, |x| {
             std::cmp::min(baseline_bits, x.count_bits())
         });
